@@ -94,6 +94,28 @@ func Tree(t *rapid.T, depth int) any {
 	}
 }
 
+// Wide draws a flat but wide container (many elements or members: buffer growth, many flushes,
+// two- and three-digit indexes).
+func Wide(t *rapid.T) any {
+	n := 20 + sim.Intn(t, 300, "wide")
+	if sim.Bool(t, "wideobj") {
+		m := make(map[string]any, n)
+		for i := 0; i < n; i++ {
+			m["k"+string(rune('a'+i%26))+string(rune('0'+i/26%10))+string(rune('0'+i/260))] = Scalar(t)
+		}
+		return m
+	}
+	a := make([]any, 0, n)
+	el := Scalar(t)
+	for i := 0; i < n; i++ {
+		if i%17 == 0 {
+			el = Scalar(t)
+		}
+		a = append(a, el)
+	}
+	return a
+}
+
 // Deep draws a narrow but deep tree (depth beyond the writers' indentation tables).
 func Deep(t *rapid.T, depth int) any {
 	var v any = Scalar(t)
